@@ -180,6 +180,8 @@ def gen(rng, tier, i):
         host = "origin.sim"
         sc.dns[host] = [oip]
     udp = oc in ("udp-on-tcp-only", "udp-assoc-timeout")
+    if oc in ("up-http-403", "up-http-garbage", "up-http-closes", "up-refused") and lk in ("socks5", "http", "https", "quic") and rng.random() < 0.35:
+        udp = True     # a UDP tunnel the upstream proxy refuses is refused just as a TCP one
     hs, proto = sc.client_handshake(li, host if not (udp and socks_l) else "0.0.0.0", oport if not (udp and socks_l) else 0, variant=variant, creds=creds, udp=udp)
     if oc == "http-unsupported":
         # a request the HTTP-style listeners do not support: another method, or CONNECT for an unknown Proxy-Protocol
